@@ -178,7 +178,7 @@ func C15(c *Ctx) {
 	r.Rule("R15.3", "special proposals: in countVote the decision function and both status changes are reachable only when !IsSpecial or IsSuperAdminVoted.")
 	r.Rule("R15.4", "effect once: every handleResult call is preceded in the same entry by a concluding call; in dispatchable entries every direct concluding change is followed by handleResult before returning.")
 	r.Rule("R15.5", "decision function: every MakeStrategyDecision call on a proposal passes (StrategyExpression, ApproveNum, AgainstNum, InitialElectorateNum, AvailableElectorateNum) of one and the same proposal, in this order.")
-	r.NotDecided = append(r.NotDecided, "semantics of govaluate strategy expressions; tally arithmetic over vote sequences; electorate snapshots")
+	r.NotDecided = append(r.NotDecided, "semantics of govaluate strategy expressions; tally arithmetic over vote sequences; electorate snapshots; how often one lifecycle event adjusts AvailableElectorateNum over a submission / approval history (seed C15-r9)")
 
 	m := c.Contracts()
 	chg := c.fn("R15.1", govPrefix+"changeProposalStatus")
